@@ -18,6 +18,10 @@ structure DRel (g : Globals) (R : Ty) (s : St) (ss : SpecSt) : Prop where
   rd : RdInv s
   /-- the typed scan of the root stack so far passes (C04), `R` the function's result type -/
   tok : TOK g R s
+  /-- value tables of the live blocks and of their finished children against the direct
+  declarations, under the names the denotation has declared / closed (C18) -/
+  vinv : FramesOk s.dts [] ss.dscope ss.kids
+  vreg : ∀ t ∈ s.dts, ∀ x ∈ t.decls, x.innerName ∈ s.root.innerNames
 
 /-- a statement-level function that reports no error preserves the relation -/
 def StD (g : Globals) (R : Ty) (f : St → St) (F : SpecSt → SpecSt) : Prop :=
@@ -275,7 +279,15 @@ theorem den_let {g : Globals} {R : Ty} {rg : RGlobals} (hg : GlobRel g rg) (hn :
           have := hs1.dn v (declOk_mem hv)
           rw [hev] at this
           exact innerUsed_false_root' hfresh this
-        refine ⟨⟨?_, ?_, ?_, ?_⟩, ?_, ?_, ?_, ?_, ?_⟩
+        have hdts : (((s1.insertValue b.name ⟨inner, r.ty, b.mutable, false, false⟩).registerInner inner).push
+            (.letBinding ⟨inner, r.ty, b.mutable, false, false⟩ r)).dts =
+            (mapHead (DT.setValues (assocInsert b.name ⟨inner, r.ty, b.mutable, false, false⟩)) s1.dts).map
+              (DT.addDecl ⟨inner, r.ty, b.mutable, false, false⟩) := by
+          rw [dts_push_decl _ ⟨inner, r.ty, b.mutable, false, false⟩ _ rfl, dts_registerInner, dts_insertValue]
+        have hvi1 : FramesOk s1.dts [] ss.dscope ss.kids := by rw [t1.dts]; exact hr.vinv
+        have hvr1 : ∀ t ∈ s1.dts, ∀ x ∈ t.decls, x.innerName ∈ s1.root.innerNames := by
+          rw [t1.dts, t1.rootNames]; exact hr.vreg
+        refine ⟨⟨?_, ?_, ?_, ?_⟩, ?_, ?_, ?_, ?_, ?_, ?_, ?_⟩
         rotate_left 7
         · -- reads
           apply rd_push_nowrite (rd_insertRegister (t1.rd hr.rd) _ _ _) _ rfl
@@ -289,6 +301,42 @@ theorem den_let {g : Globals} {R : Ty} {rg : RGlobals} (hg : GlobRel g rg) (hn :
             simp [tyStepBad, badIf, hh.operandOk] at hb
           · unfold St.registerInner St.mapFrames St.insertValue St.mapCur
             cases s1.inner <;> rfl
+        · -- value tables
+          rw [hdts]
+          have hfresh' : ∀ t' ∈ s1.dts, (⟨inner, r.ty, b.mutable, false, false⟩ : Value) ∉ t'.decls := by
+            intro t' ht' hx
+            exact innerUsed_false_root' hfresh (hvr1 t' ht' _ hx)
+          cases hd1 : s1.dts with
+          | nil => exact absurd (by unfold St.dts at hd1; simpa using hd1) (frames_ne_nil s1)
+          | cons t ts =>
+            rw [hd1] at hvi1 hfresh'
+            obtain ⟨fr, frs, k, ks, hds, hks, hf, hin, hrest⟩ := hvi1.inv_cons
+            have := framesOk_declare (FramesOk.cons hf hin hrest) b.name ⟨inner, r.ty, b.mutable, false, false⟩ ss.next hfresh'
+            unfold SpecSt.declare SpecSt.emit SpecSt.emits
+            dsimp only [mapHead, List.map_cons]
+            rw [hds, hks]
+            exact this
+        · -- declared records carry registered names
+          rw [hdts, hroot]
+          intro t ht x hx
+          rw [List.mem_map] at ht
+          obtain ⟨t0, ht0, rfl⟩ := ht
+          rw [DT.addDecl_decls, List.mem_append] at hx
+          rw [mem_setInsert]
+          rcases hx with hx | hx
+          · right
+            cases hd1 : s1.dts with
+            | nil => rw [hd1] at ht0; simp [mapHead] at ht0
+            | cons t ts =>
+              rw [hd1] at ht0
+              simp only [mapHead, List.mem_cons] at ht0
+              rcases ht0 with rfl | ht0
+              · rw [DT.setValues_decls] at hx
+                exact hvr1 t (by rw [hd1]; simp) x hx
+              · exact hvr1 t0 (by rw [hd1]; simp [ht0]) x hx
+          · left
+            simp only [List.mem_singleton] at hx
+            rw [hx]
         · -- types
           unfold ScopeRel
           rw [vals_push, vals_registerInner]
@@ -359,7 +407,8 @@ theorem den_let {g : Globals} {R : Ty} {rg : RGlobals} (hg : GlobRel g rg) (hn :
 theorem drel_trans {g : Globals} {R : Ty} {s s1 : St} {ss : SpecSt} {evs : List DStmt} (hr : DRel g R s ss) (t1 : Trans g s s1 evs) :
     DRel g R s1 (ss.emits evs) :=
   ⟨⟨(hr.scope.of_trans t1).sc, (hr.scope.of_trans t1).dv, (hr.scope.of_trans t1).dk, (hr.scope.of_trans t1).dn⟩, by rw [t1.out, hr.out]; rfl, by rw [t1.decls]; exact hr.next,
-   fun n hn => by rw [t1.rootNames]; exact hr.reg n (by rw [← t1.decls]; exact hn), t1.rd hr.rd, t1.tok R hr.tok⟩
+   fun n hn => by rw [t1.rootNames]; exact hr.reg n (by rw [← t1.decls]; exact hn), t1.rd hr.rd, t1.tok R hr.tok,
+   by rw [t1.dts]; exact hr.vinv, by rw [t1.dts, t1.rootNames]; exact hr.vreg⟩
 
 /-- pushing a statement-level instruction that only appends statement `d` to the abstract reading -/
 theorem drel_push_emit {g : Globals} {R : Ty} {s : St} {ss : SpecSt} (hr : DRel g R s ss) (i : Instr) (d : DStmt)
@@ -373,7 +422,9 @@ theorem drel_push_emit {g : Globals} {R : Ty} {s : St} {ss : SpecSt} (hr : DRel 
     by rw [vals_push]; intro fr hfr n v hv; unfold TyEnv.declOk; rw [htd]; exact hr.scope.dk fr hfr n v hv,
     by rw [htd]; exact hr.scope.dn⟩,
    by rw [abs_push, ho, hr.out]; rfl, by rw [abs_push, hd]; exact hr.next,
-   fun n hn => hr.reg n (by rw [abs_push, hd] at hn; exact hn), rd_push_nowrite hr.rd i hw hrd, tok_push i hr.tok hty⟩
+   fun n hn => hr.reg n (by rw [abs_push, hd] at hn; exact hn), rd_push_nowrite hr.rd i hw hrd, tok_push i hr.tok hty,
+   by rw [dts_push_plain i s (declares_none_of hnd)]; exact hr.vinv,
+   by rw [dts_push_plain i s (declares_none_of hnd)]; exact hr.vreg⟩
 
 theorem len_of_ext {a b : List Err} (h : ∃ Δ, b = a ++ Δ) : a.length ≤ b.length := by
   obtain ⟨Δ, h⟩ := h; rw [h]; simp
@@ -702,7 +753,8 @@ theorem drel_setReturn {g : Globals} {R : Ty} {s : St} {ss : SpecSt} (hr : DRel 
      intro b hb
      simp [St.setReturn, St.mapFrames] at hb ⊢
      obtain ⟨b', hb', rfl⟩ := hb
-     exact hr.rd.sync b' hb') rfl rfl, tok_of_ctx rfl hr.tok⟩
+     exact hr.rd.sync b' hb') rfl rfl, tok_of_ctx rfl hr.tok,
+   by rw [dts_setReturn]; exact hr.vinv, by rw [dts_setReturn]; exact hr.vreg⟩
 
 theorem den_nestedReturn {g : Globals} {R : Ty} {rg : RGlobals} (hg : GlobRel g rg) (hn : GNames g) (e : Expr)
     (s : St) (ss : SpecSt) (hr : DRel g R s ss) (he : (nestedReturn g e s).1.errors = s.errors) :
